@@ -50,7 +50,8 @@ CONSTANTS NK,          \* keys 1 .. NK
           Tears,       \* at most this many torn units per crash image (0 = block-granular loss only)
           FreshStart, InitSync,
           SyncIntent, SyncData, SyncClear, JournalAll, SuccTest, SyncMarkers,
-          ClearSlot    \* TRUE (the code): a CLEAR write records the slot it went to, so slots strictly alternate
+          ClearSlot,   \* TRUE (the code): a CLEAR write records the slot it went to, so slots strictly alternate
+          FlushGivesUp \* TRUE (the code): a flush whose cycle failed for lack of space returns the error instead of asking again
 
 ASSUME /\ NK \in Nat /\ MaxGen \in Nat /\ MaxTs \in Nat /\ JMax \in Nat \ {0} /\ MaxFlush \in Nat
        /\ Tears \in Nat /\ Sizes \subseteq (Nat \ {0})
@@ -188,7 +189,8 @@ SuccOK(g) == LET s == gens[g].succ IN
 \* what the flush caller learns when the cycle it waits for ends (force_flush loop)
 FlAfter(retq1, released1) ==
   IF ~wk.serving THEN fl
-  ELSE IF wk.failed /\ ~released1 THEN [fl EXCEPT !.pc = "idle"]         \* Err(OutOfSpace): no ack
+  ELSE IF wk.failed /\ ~released1 THEN (IF FlushGivesUp THEN [fl EXCEPT !.pc = "idle"]   \* Err(OutOfSpace): no ack
+                                        ELSE [fl EXCEPT !.pc = "req"])    \* (mutation: ask again for ever)
   ELSE IF wk.failed \/ retq1 # {} THEN [fl EXCEPT !.pc = "req"]         \* Ok(true): ask again
   ELSE [fl EXCEPT !.pc = "meta"]
 
@@ -390,4 +392,27 @@ TypeOK == /\ wk.pc \in {"idle", "alloc", "intent", "fs1", "data", "fs2", "clear"
           /\ fl.pc \in {"idle", "req", "wait", "meta", "msync"}
           /\ boot \in {"fresh", "msync", "done"}
           /\ ng \in 0 .. MaxGen /\ free \subseteq Blocks
+
+(* ------------------------------ liveness ------------------------------ *)
+(* C19 ("accepted writes reach the device without explicit flush") and C18 ("flush always terminates") at *)
+(* design level.  The worker, the start-up and the flush caller are weakly fair; Put/Del/FlushBegin are the *)
+(* environment.  Checked with RetireAny = FALSE (no reader keeps a superseded generation pinned for ever).  *)
+WorkerStep ==
+  \/ WStart \/ WAlloc \/ WIntent \/ WFs("fs1", "data") \/ WData \/ WFs("fs2", "clear")
+  \/ WClear("clear", IF SyncClear THEN "fs3" ELSE "publish") \/ WFs("fs3", "publish") \/ WPublish
+  \/ RClassify \/ RIntent \/ WFs("rfs1", "rmark") \/ RMarkers \/ WFs("rfs2", "rclear")
+  \/ WClear("rclear", IF SyncClear THEN "rfs3" ELSE "rnext") \/ WFs("rfs3", "rnext") \/ RNext \/ RRelease
+Fair == WF_vars(InitDevice \/ InitFsync) /\ WF_vars(WorkerStep) /\ WF_vars(FlushMeta \/ FlushAck)
+FairSpec == Spec /\ Fair
+
+PendingWrites == SelectSeq(q, LAMBDA e : e.op = "W" /\ gens[e.g].sector = 0 /\ gens[e.g].live)
+NoRoom == LET pw == PendingWrites
+              ws == [i \in 1 .. Len(pw) |-> [g |-> pw[i].g, n |-> gens[pw[i].g].n, at |-> 0]]
+          IN pw # <<>> /\ ~AllocAll(ws, 1, free).ok
+Retirable == {e \in retq : gens[e.g].sector # 0 /\ (SuccTest => SuccOK(e.g))}
+Drained == wk.pc = "idle" /\ q = <<>> /\ retq = {}
+\* the only way not to drain: what is queued does not fit and nothing on the device may be retired yet
+OutOfSpace == wk.pc = "idle" /\ NoRoom /\ Retirable = {}
+WriteBehindDrains == []<>(Drained \/ OutOfSpace)
+FlushTerminates == (fl.pc # "idle") ~> (fl.pc = "idle")
 =============================================================================
